@@ -77,8 +77,9 @@ func (f *Merge) Call(s *slip.Scope, args slip.List, depth int) (result slip.Obje
 	default:
 		slip.TypePanic(s, depth, "result-type", ta, "nil", "list", "string", "vector", "octets")
 	}
-	seq1 := slip.CoerceToList(args[1]).(slip.List)
-	seq2 := slip.CoerceToList(args[2]).(slip.List)
+	// CoerceToList returns nil for nil, the empty list.
+	seq1, _ := slip.CoerceToList(args[1]).(slip.List)
+	seq2, _ := slip.CoerceToList(args[2]).(slip.List)
 	d2 := depth + 1
 	var (
 		keyFunc   slip.Caller
